@@ -161,7 +161,12 @@ def run(ck: Check):
         one("attrs", data)
     for data in strings_upto(ATTR_ALPHABET[:7], 6 if quick else 7, 5 if quick else 6):
         one("attrs", data)
-    jsfrag = [b"'", b'"', b"\\", b"\\x41", b"\\u1234", b"\\u{1F600}", b"\\u{}", b"\\u{0000041}", b"\\u{000000000061}", b"\\xg", b"a", b"b;",
+    # upper-case look-alikes of the escape letters are ordinary characters (\\U0041 is a backslash pair and four
+    # characters): every string up to a length over { " \\ U X u 0 { } }
+    for data in strings_upto([b'"', b"\\", b"U", b"X", b"u", b"0", b"{", b"}"], 5 if quick else 7, 3):
+        if b'"' in data and b"\\" in data:
+            one("jsstr", b'"' + data + b'"')
+    jsfrag = [b"\\U0041", b"\\X41", b"\\U{41}", b"\\N", b"U", b"X", b"'", b'"', b"\\", b"\\x41", b"\\u1234", b"\\u{1F600}", b"\\u{}", b"\\u{0000041}", b"\\u{000000000061}", b"\\xg", b"a", b"b;",
               b"\n", b"\\'", b'\\"', b"x = ", b"DDBEGIN\n", b"DDEND\n", b"\\u{12", b"\xff"]
     atfrag = [b"<a", b"<b-c", b"< d", b">", b" e", b" f=", b"g", b'"h i"', b"'j'", b"=", b" ", b"\n",
               b"/", b"k:l", b'"', b"'", b"<", b"x>y", b"DDBEGIN\n", b"DDEND\n", b"\t", b"\r"]
